@@ -37,8 +37,6 @@ class Path:
         self.decisions = []
         self.alternatives = []
         self.cfg = cfg
-        self.solver = z3.Solver()
-        self.solver.set('timeout', cfg.get('branch_timeout_ms', 5000))
         self.pc = []
         self.fresh = {}
         self.solver_time = 0.0
@@ -64,48 +62,70 @@ class Path:
         if z3.is_false(cond):
             raise PathAbort()
         self.pc.append(cond)
-        self.solver.add(cond)
+
+    def reduce(self, t):
+        """Simplify t under the literal facts of the path condition (sound: pc holds on this path)."""
+        if not self.pc:
+            return z3.simplify(t)
+        n = len(self.pc)
+        if getattr(self, '_subs_n', -1) != n:
+            subs = []
+            stack = list(self.pc)
+            while stack:
+                a = stack.pop()
+                if z3.is_and(a):
+                    stack.extend(a.children())
+                elif z3.is_not(a):
+                    subs.append((a.arg(0), z3.BoolVal(False)))
+                elif not z3.is_true(a):
+                    subs.append((a, z3.BoolVal(True)))
+            self._subs = subs
+            self._subs_n = n
+        if not self._subs:
+            return z3.simplify(t)
+        return z3.simplify(z3.substitute(z3.simplify(t), *self._subs))
 
     def check(self, *extra, timeout_ms=None):
-        """Satisfiability of pc + extra.  Tries z3 on the integer formulation briefly, then the
-        sound bit-vector lowering (lower.py), then z3 again with the full budget.  The model of a
-        `sat` answer is left in self.last_model (self.last_lowered tells which formulation)."""
+        """Satisfiability of pc + extra.
+
+        The assertions are split into variable-disjoint components which are solved separately
+        (a conjunction of independent parts is satisfiable iff every part is) and cached across
+        paths.  Each component is tried on z3's integer/FP formulation and on the sound
+        bit-vector lowering (lower.py).  The models of a `sat` answer are left in
+        self.last_model (a MultiModel)."""
         t0 = time.time()
         full = timeout_ms if timeout_ms is not None else self.cfg.get('branch_timeout_ms', 5000)
         self.nqueries += 1
         self.last_model = None
-        self.last_lowered = False
         self.last_backend = 'z3'
-        if getattr(self, 'prefer_lowered', False):
-            r = z3.unknown
-        else:
-            self.solver.set('timeout', min(full, 1000))
-            r = self.solver.check(*extra)
-        if r == z3.unknown:
-            from .lower import Lowerer, GiveUp
-            try:
-                lw = Lowerer(list(self.pc) + list(extra))
-                low = lw.lower()
-                s2 = z3.Solver()
-                s2.set('timeout', full)
-                s2.add(*low)
-                r2 = s2.check()
-                if r2 != z3.unknown:
-                    r = r2
-                    self.last_backend = 'z3-bv%d' % lw.W
-                    self.prefer_lowered = True
-                    if r2 == z3.sat:
-                        self.last_model = s2.model()
-                        self.last_lowered = True
-            except (GiveUp, z3.Z3Exception):
-                pass
-        if r == z3.unknown and full > 1000:
-            self.solver.set('timeout', full)
-            r = self.solver.check(*extra)
-        if r == z3.sat and self.last_model is None:
-            self.last_model = self.solver.model()
+        assertions = []
+        for a in list(self.pc) + list(extra):
+            if z3.is_true(a):
+                continue
+            if z3.is_and(a):
+                assertions.extend(a.children())
+            else:
+                assertions.append(a)
+        comps = partition(assertions)
+        overall = z3.sat
+        models = []
+        backends = set()
+        for comp in comps:
+            r, model, backend = solve_component(comp, full)
+            backends.add(backend)
+            if r == z3.unsat:
+                overall = z3.unsat
+                self.last_backend = backend
+                break
+            if r == z3.unknown:
+                overall = z3.unknown
+            models.append(model)
+        if overall == z3.sat:
+            self.last_model = MultiModel(models)
+            bl = sorted(b for b in backends if b != 'z3')
+            self.last_backend = bl[-1] if bl else 'z3'
         self.solver_time += time.time() - t0
-        return r
+        return overall
 
     def feasible(self):
         return self.check() != z3.unsat
@@ -118,7 +138,7 @@ class Path:
             cond = cond.t
         if isinstance(cond, bool):
             return cond
-        cond = z3.simplify(cond)
+        cond = self.reduce(cond)
         if z3.is_true(cond):
             return True
         if z3.is_false(cond):
@@ -129,7 +149,6 @@ class Path:
             self.decisions.append(d)
             c = cond if d else z3.Not(cond)
             self.pc.append(c)
-            self.solver.add(c)
             return d
         rt = self.check(cond)
         rf = self.check(z3.Not(cond))
@@ -149,7 +168,6 @@ class Path:
         self.decisions.append(d)
         c = cond if d else z3.Not(cond)
         self.pc.append(c)
-        self.solver.add(c)
         if len(self.decisions) > self.cfg.get('max_decisions', 400):
             raise Budget('too many decisions on one path')
         return d
@@ -160,12 +178,190 @@ class Path:
             return True
         if cond is False:
             return False
-        cond = z3.simplify(cond)
+        cond = self.reduce(cond)
         if z3.is_true(cond):
             return True
         if z3.is_false(cond):
             return False
         return self.check(z3.Not(cond)) == z3.unsat
+
+
+# ----------------------------------------------------------------------------- component solving
+
+_sym_cache = {}
+
+
+def symbols_of(a):
+    """free constants and function symbols of an assertion (cached by AST id)"""
+    key = a.get_id()
+    hit = _sym_cache.get(key)
+    if hit is not None:
+        return hit[1]
+    out = set()
+    seen = set()
+    stack = [a]
+    flags = set()
+    while stack:
+        t = stack.pop()
+        i = t.get_id()
+        if i in seen:
+            continue
+        seen.add(i)
+        if z3.is_quantifier(t):
+            stack.append(t.body())
+            flags.add('quant')
+            continue
+        if z3.is_var(t):
+            continue
+        if z3.is_app(t):
+            k = t.decl().kind()
+            if k == z3.Z3_OP_UNINTERPRETED:
+                out.add(t.decl().name())
+            srt = t.sort().kind()
+            if srt == z3.Z3_FLOATING_POINT_SORT:
+                flags.add('fp')
+            elif srt == z3.Z3_SEQ_SORT:
+                flags.add('seq')
+            if k in (z3.Z3_OP_IDIV, z3.Z3_OP_MOD, z3.Z3_OP_INT2BV):
+                flags.add('divmod')
+            stack.extend(t.children())
+    res = (frozenset(out), frozenset(flags))
+    _sym_cache[key] = (a, res)
+    return res
+
+
+def partition(assertions):
+    parent = {}
+
+    def find(x):
+        while parent.get(x, x) != x:
+            parent[x] = parent.get(parent[x], parent[x])
+            x = parent[x]
+        return x
+
+    def union(a, b):
+        ra, rb = find(a), find(b)
+        if ra != rb:
+            parent[ra] = rb
+    infos = []
+    for a in assertions:
+        syms, flags = symbols_of(a)
+        infos.append((a, syms))
+        syms = list(syms)
+        for s in syms[1:]:
+            union(syms[0], s)
+    groups = {}
+    ground = []
+    for a, syms in infos:
+        if not syms:
+            ground.append(a)
+            continue
+        groups.setdefault(find(next(iter(syms))), []).append(a)
+    comps = list(groups.values())
+    if ground:
+        comps.append(ground)
+    return comps
+
+
+_comp_cache = {}
+
+
+def solve_component(comp, timeout_ms):
+    key = tuple(sorted(a.get_id() for a in comp))
+    hit = _comp_cache.get(key)
+    if hit is not None and (hit[1] != z3.unknown or hit[4] >= timeout_ms):
+        return hit[1], hit[2], hit[3]
+    flags = set()
+    for a in comp:
+        flags |= symbols_of(a)[1]
+    r, model, backend = z3.unknown, None, 'z3'
+    lowered_first = bool(flags & {'fp', 'divmod'}) and 'seq' not in flags and 'quant' not in flags
+
+    def plain(tmo):
+        s = z3.Solver()
+        s.set('timeout', tmo)
+        s.add(*comp)
+        rr = s.check()
+        return rr, (PlainModel(s.model()) if rr == z3.sat else None), 'z3'
+
+    def lowered(tmo):
+        from .lower import Lowerer, GiveUp
+        try:
+            lw = Lowerer(list(comp))
+            low = lw.lower()
+        except (GiveUp, z3.Z3Exception):
+            return z3.unknown, None, 'z3'
+        s = z3.Solver()
+        s.set('timeout', tmo)
+        s.add(*low)
+        rr = s.check()
+        return rr, (LoweredModel(s.model()) if rr == z3.sat else None), 'z3-bv%d' % lw.W
+
+    if lowered_first:
+        r, model, backend = lowered(timeout_ms)
+        if r == z3.unknown:
+            r, model, backend = plain(timeout_ms)
+    else:
+        r, model, backend = plain(min(timeout_ms, 1000))
+        if r == z3.unknown and 'seq' not in flags and 'quant' not in flags:
+            r, model, backend = lowered(timeout_ms)
+        if r == z3.unknown and timeout_ms > 1000:
+            r, model, backend = plain(timeout_ms)
+    _comp_cache[key] = (list(comp), r, model, backend, timeout_ms)
+    if len(_comp_cache) > 20000:
+        _comp_cache.clear()
+    return r, model, backend
+
+
+class PlainModel:
+    def __init__(self, m):
+        self.m = m
+        self.names = set(d.name() for d in m.decls())
+
+    def has(self, name):
+        return name in self.names
+
+    def eval(self, t):
+        return self.m.eval(t, model_completion=True)
+
+
+class LoweredModel:
+    def __init__(self, m):
+        self.m = m
+        self.names = set()
+        self.bv = {}
+        for d in m.decls():
+            n = d.name()
+            if n.startswith('bv!'):
+                self.bv[n[3:]] = m[d]
+                self.names.add(n[3:])
+            else:
+                self.names.add(n)
+
+    def has(self, name):
+        return name in self.names
+
+    def eval(self, t):
+        if z3.is_const(t) and z3.is_int(t) and not z3.is_int_value(t):
+            v = self.bv.get(t.decl().name())
+            return z3.IntVal(v.as_signed_long() if v is not None else 0)
+        return self.m.eval(t, model_completion=True)
+
+
+class MultiModel:
+    """models of the variable-disjoint components of one query"""
+
+    def __init__(self, models):
+        self.models = [m for m in models if m is not None]
+
+    def eval(self, t, model_completion=True):
+        syms, _ = symbols_of(t)
+        for m in self.models:
+            if any(m.has(s) for s in syms):
+                return m.eval(t)
+        if self.models:
+            return self.models[0].eval(t)
+        return t
 
 
 def explore(run, cfg):
